@@ -88,6 +88,10 @@ Definition is_nil {X} (l : list X) : bool := match l with [] => true | _ => fals
 
 Section WithPredicate.
 Variable v : nat -> verdict.
+(* how the copying scan re-creates a node from a source node: parent.add_child(n) / parent.add(n)
+   WITHOUT a kind argument -- the identity in a plain Tree; in a TypedTree the new node gets the
+   default kind instead of the source node's kind (nodes copied by _add_from keep theirs) *)
+Variable mk : info -> info.
 
 (* ------------------------------------------------------------------ *)
 (* (a) the spec F: [s] = a stop signal was seen earlier in pre-order  *)
@@ -200,7 +204,7 @@ Fixpoint materialise (stk : list frame) (nx : nat) : list frame * nat :=
       let r := materialise below nx in
       match fr with
       | Existing _ _ _ => (fr :: fst r, snd r)
-      | Virtual src => (Existing (snd r) (rinfo src) [] :: fst r, S (snd r))
+      | Virtual src => (Existing (snd r) (mk (rinfo src)) [] :: fst r, S (snd r))
       end
   end.
 
@@ -265,7 +269,7 @@ Fixpoint af_node (t : rt) (st : afst) {struct t} : afst :=
       match v id with
       | VSkipKeepSelf =>
           let m := materialise stk1 nx in
-          (pop (add_top (T (snd m) i []) (fst m)), S (snd m), false)
+          (pop (add_top (T (snd m) (mk i) []) (fst m)), S (snd m), false)
       | VStop => (pop stk1, nx, true)
       | VSelect =>
           let m := materialise stk1 nx in
@@ -276,7 +280,7 @@ Fixpoint af_node (t : rt) (st : afst) {struct t} : afst :=
           (pop (fst (fst r)), snd (fst r), snd r)
       | VTrue =>
           let m := materialise stk1 nx in
-          let r := visit (add_top (T (snd m) i []) (fst m), S (snd m), false) in
+          let r := visit (add_top (T (snd m) (mk i) []) (fst m), S (snd m), false) in
           (pop (fst (fst r)), snd (fst r), snd r)
       | VSkip => (pop stk1, nx, false)
       end
@@ -328,13 +332,14 @@ Definition copy_result (g : forest) : outcome forest := if sib_dup g then EUniqu
 
 Definition api_filter (p : option (nat -> verdict)) (f : forest) : outcome forest :=
   match p with None => EValue | Some v => Ok (filter_inplace v f) end.
-Definition api_filtered (p : option (nat -> verdict)) (f : forest) (nx : nat) : outcome forest :=
-  match p with None => EValue | Some v => copy_result (fst (add_filtered v f nx)) end.
-Definition api_copy (p : option (nat -> verdict)) (f : forest) (nx : nat) : outcome forest :=
-  match p with None => copy_result (fst (copy_f f nx)) | Some v => copy_result (fst (add_filtered v f nx)) end.
+Definition api_filtered (mk : info -> info) (p : option (nat -> verdict)) (f : forest) (nx : nat) : outcome forest :=
+  match p with None => EValue | Some v => copy_result (fst (add_filtered v mk f nx)) end.
+Definition api_copy (mk : info -> info) (p : option (nat -> verdict)) (f : forest) (nx : nat) : outcome forest :=
+  match p with None => copy_result (fst (copy_f f nx)) | Some v => copy_result (fst (add_filtered v mk f nx)) end.
 
 Section WithPredicate2.
 Variable v : nat -> verdict.
+Variable mk : info -> info.
 
 (* ------------------------------------------------------------------ *)
 (* (c') the calls of the predicate made by the two scans, in order.  Both
@@ -366,7 +371,7 @@ Fixpoint scan_calls_f (after : bool -> rt -> bool) (s : bool) (l : list rt) {str
 Definition ip_calls (f : forest) : list nat :=
   scan_calls_f (fun s x => snd (ip_node v s x)) false f.
 Definition af_calls (f : forest) : list nat :=
-  scan_calls_f (fun s x => snd (af_node v x ([], 0, s))) false f.
+  scan_calls_f (fun s x => snd (af_node v mk x ([], 0, s))) false f.
 
 (* ------------------------------------------------------------------ *)
 (* (d) set characterisation *)
@@ -418,9 +423,9 @@ Fixpoint dbl_t (t : rt) : rt :=
   match t with
   | T id i ch =>
       match v id with
-      | VSelect => T id i ch
-      | VTrue | VSkipKeepSelf => T id i (T id i [] :: map dbl_t ch)
-      | _ => T id i (map dbl_t ch)
+      | VSelect => T id (mk i) ch               (* the node re-created by the scan, its branch copied by _add_from *)
+      | VTrue | VSkipKeepSelf => T id (mk i) (T id (mk i) [] :: map dbl_t ch)
+      | _ => T id (mk i) (map dbl_t ch)
       end
   end.
 Definition dbl (f : forest) : forest := map dbl_t f.
